@@ -59,7 +59,12 @@ fn main() -> ExitCode {
             ..Config::default()
         });
         let strategy = vdrive::case_strategy(prop);
-        let cases: Vec<vdrive::Case> = (0..n).map(|_| strategy.new_tree(&mut runner).expect("tree").current()).collect();
+        let mut cases: Vec<vdrive::Case> = (0..n).map(|_| strategy.new_tree(&mut runner).expect("tree").current()).collect();
+        // serde_json's error path uses memchr's aligned SIMD loads, which Miri's symbolic alignment
+        // check reports although they are fine: serde operations are left to the native tiers
+        for c in cases.iter_mut() {
+            c.ops.retain(|op| !matches!(op, vdrive::Op::Ser { .. } | vdrive::Op::DeBad { .. }));
+        }
         fs::write(&args[4], serde_json::to_string(&cases).unwrap()).expect("write cases");
         return ExitCode::SUCCESS;
     }
